@@ -367,6 +367,10 @@ func (e *Env) ident(name string) (SVal, error) {
 			return mkU(q(e.X.D.constOf(name, "U"))), nil
 		}
 	}
+	if strings.HasPrefix(name, "Err") && len(name) > 3 {
+		// package-level sentinel error
+		return e.X.load(e.St, "global:"+name, types.Universe.Lookup("error").Type(), token.NoPos), nil
+	}
 	if strings.HasPrefix(name, "result") {
 		if i, err := strconv.Atoi(strings.TrimPrefix(name, "result")); err == nil && e.Exit != nil && i < len(e.Exit.Results) {
 			return e.Exit.Results[i], nil
